@@ -220,7 +220,11 @@ def check_text_input(cls):
             fresh = True
     for n in ast.walk(fn):
         if isinstance(n, ast.Call) and ast.unparse(n.func) == 'self.parser.parse':
+            if n.args or any(k.arg is None for k in n.keywords):
+                raise Shape('text_input: self.parser.parse called with positional / * / ** arguments')
             kw = {k.arg: ast.unparse(k.value) for k in n.keywords}
+            if set(kw) - {'lexer', 'input', 'tracking'}:
+                raise Shape('text_input: self.parser.parse called with keyword(s) %s' % sorted(set(kw) - {'lexer', 'input', 'tracking'}))
             if kw.get('lexer') == 'lexer' and kw.get('tracking') in ('1', 'True'):
                 tracking = True
     if not fresh:
